@@ -1,0 +1,106 @@
+//go:build verif
+// +build verif
+
+// Event trace of the voters for the verification harness under /verif (UconNet stage of C03):
+// one ndjson line per hook call, written to the file named by VERIF_TRACE_FILE (no-op when the
+// variable is unset).  The hooks are bare one-line calls in voter.go, all of them reached with
+// v.lock held, so "seq" orders the events of one node exactly as its state changed.  Node and
+// sender addresses and block hashes are interned to small integers in order of first appearance
+// (block 0 is the empty hash).  Compiled only with -tags verif; verif_trace_off.go is the empty twin.
+
+package ucon
+
+import (
+	"encoding/json"
+	"math/big"
+	"os"
+	"sync"
+
+	"github.com/youchainhq/go-youchain/common"
+	"github.com/youchainhq/go-youchain/params"
+)
+
+var verifTr struct {
+	mu     sync.Mutex
+	opened bool
+	f      *os.File
+	nodes  map[common.Address]int
+	blocks map[common.Hash]int
+	seq    map[*Voter]int
+	vid    map[*Voter]int
+	g      int
+}
+
+var verifFields = map[string][]string{
+	"ctx":    {"r", "i", "step", "cert"},
+	"vote":   {"k", "r", "i", "b", "w", "total", "th"},
+	"count":  {"s", "k", "r", "i", "b", "w", "total", "th", "status"},
+	"double": {"s", "k", "r", "i", "b"},
+	"quorum": {"k", "r", "i", "b", "total", "th", "vkind"},
+	"commit": {"r", "i", "b", "npre"},
+}
+
+func verifTrace(v *Voter, ev string, args ...interface{}) {
+	t := &verifTr
+	t.mu.Lock()
+	defer t.mu.Unlock()
+	if !t.opened {
+		t.opened = true
+		if name := os.Getenv("VERIF_TRACE_FILE"); name != "" {
+			if f, err := os.OpenFile(name, os.O_CREATE|os.O_WRONLY|os.O_APPEND, 0644); err == nil {
+				t.f = f
+				t.nodes, t.blocks, t.seq, t.vid = map[common.Address]int{}, map[common.Hash]int{{}: 0}, map[*Voter]int{}, map[*Voter]int{}
+			}
+		}
+	}
+	if t.f == nil {
+		return
+	}
+	node := func(a common.Address) int {
+		id, ok := t.nodes[a]
+		if !ok {
+			id = len(t.nodes) + 1
+			t.nodes[a] = id
+		}
+		return id
+	}
+	if _, ok := t.vid[v]; !ok {
+		t.vid[v] = len(t.vid) + 1 // one id per Voter object: a test that builds new nodes starts new sequences
+	}
+	t.seq[v]++
+	t.g++
+	m := map[string]interface{}{"ev": ev, "node": node(v.addr), "vid": t.vid[v], "seq": t.seq[v], "g": t.g}
+	names := verifFields[ev]
+	for n, a := range args {
+		name := "x"
+		if n < len(names) {
+			name = names[n]
+		}
+		switch x := a.(type) {
+		case *big.Int:
+			if x == nil {
+				m[name] = 0
+			} else {
+				m[name] = x.Int64()
+			}
+		case common.Hash:
+			id, ok := t.blocks[x]
+			if !ok {
+				id = len(t.blocks)
+				t.blocks[x] = id
+			}
+			m[name] = id
+		case common.Address:
+			m[name] = node(x)
+		case VoteType:
+			m[name] = VoteTypeToString(x)
+		case params.ValidatorKind:
+			m[name] = int(x)
+		default:
+			m[name] = x
+		}
+	}
+	if b, err := json.Marshal(m); err == nil {
+		t.f.Write(append(b, '\n'))
+	}
+}
